@@ -353,6 +353,10 @@ func toElasticQuota(obj interface{}) *v1alpha1.ElasticQuota {
 	case *unstructured.Unstructured:
 		unstructuredObj = obj.(*unstructured.Unstructured)
 	case cache.DeletedFinalStateUnknown:
+		// the quota informer is typed, its tombstones carry the typed object
+		if quota, ok := t.Obj.(*v1alpha1.ElasticQuota); ok {
+			return quota
+		}
 		var ok bool
 		unstructuredObj, ok = t.Obj.(*unstructured.Unstructured)
 		if !ok {
